@@ -27,10 +27,10 @@ func (c *RunCfg) knownOpen(id string) bool { return c.Known[id] }
 
 type Stats struct {
 	Paths, Ended, Completed, Queries, Obligations, Unsat, Sat, Unknown int
-	Steps                                                             int64
-	Funcs, Stubs                                                      map[string]int
-	Asserts, Reached, Panics, Forks                                   map[string]int
-	SolverTime                                                        time.Duration
+	Steps                                                              int64
+	Funcs, Stubs                                                       map[string]int
+	Asserts, Reached, Panics, Forks                                    map[string]int
+	SolverTime                                                         time.Duration
 }
 
 func newStats() *Stats {
@@ -93,7 +93,6 @@ type Runner struct {
 	busy    int
 	results map[string]*HarnessResult
 	stopped bool
-
 }
 
 func (r *Runner) Run(harnesses []*ssa.Function) map[string]*HarnessResult {
